@@ -2,6 +2,7 @@
    Proved so far; the composition over whole pictures is tied by execution against the reference
    reconstruction (see DESIGN.md). *)
 From H263V Require Import base.Prelude spec.SpecRecon model.Types model.Reader model.Header model.Syntax model.Recon model.Decoder proofs.MvSpec.
+From H263V Require Import model.Tables spec.SpecTables proofs.VlcTables proofs.PlaneShape proofs.GatherSpec.
 
 (* each vector component = predictor + differential reduced modulo 64 half samples into -32..31 (= -16..15.5) *)
 Theorem C03_vector_wrap : forall cur running p d is_x,
@@ -28,7 +29,38 @@ Theorem C03_no_reference_is_an_error : forall items i mbpl np np',
   gather_go items i None mbpl np = Ok np' -> Forall (fun tv : mbtype * mv4 => mb_is_inter (fst tv) = false) items.
 Proof. exact gather_without_reference. Qed.
 
+(* the macroblock-type tree for predicted pictures decodes exactly H.263 Table 8 (24 type/pattern code words and
+   stuffing), the differential tree Table 14 *)
+Theorem C03_code_tables :
+  (forall code v rest pos, In (code, v) spec_mcbpc_p ->
+     read_vlc mcbpc_p_table (mkReader (code ++ rest) pos) = Ok (v, mkReader rest (pos + Z.of_nat (length code)))) /\
+  (forall code h rest pos, In (code, h) spec_mvd ->
+     read_vlc mvd_table (mkReader (code ++ rest) pos) = Ok (Some h, mkReader rest (pos + Z.of_nat (length code)))) /\
+  count_leaves bpe_valid mcbpc_p_table = length spec_mcbpc_p.
+Proof. exact (conj mcbpc_p_is_table8 (conj mvd_is_table14 (proj2 mcbpc_no_other_codes))). Qed.
+
+(* motion compensation of one 8x8 block, for every reference plane, target plane, picture size, block position and vector
+   (in half-sample units): all three paths of the code - whole-block slice copies, clamped full-sample copy, clamped
+   bilinear interpolation - write at every sample of the block that lies inside the picture the H.263 prediction
+   `pred_spec` (reference sample at the displaced position, coordinates outside the picture taking the nearest edge
+   sample, half-sample positions the mean of the two or four neighbours rounded upwards) and leave every other sample
+   of the target as it was *)
+Theorem C03_block_prediction : forall w h src px py v t,
+  plane_ok w h src -> plane_ok w h t -> 1 <= w -> 1 <= h -> 0 <= px -> 0 <= py ->
+  exists t', gather_block src w px py v t = Ok t' /\ plane_ok w h t' /\
+    forall x y, 0 <= x < w -> 0 <= y < h ->
+      at_ t' x y = if in_block px py 8 8 x y then pred_spec src w h (2 * x + fst v) (2 * y + snd v) else at_ t x y.
+Proof. exact gather_block_spec. Qed.
+
+(* non-vacuity: a 3x2 reference, vector (+0.5, -0.5) at block (0,0): sample (2,0) interpolates across the right and top edges *)
+Example C03_block_prediction_example :
+  let src := mkPlane 3 [[10; 20; 40]; [50; 60; 90]] in
+  pred_spec src 3 2 (2 * 2 + 1) (2 * 0 - 1) = 40 /\ pred_spec src 3 2 (2 * 0 + 1) (2 * 1 - 1) = 35.
+Proof. cbv zeta. split; vm_compute; reflexivity. Qed.
+
 Print Assumptions C03_vector_wrap.
+Print Assumptions C03_block_prediction.
+Print Assumptions C03_code_tables.
 Print Assumptions C03_chroma_vector_table.
 Print Assumptions C03_median.
 Print Assumptions C03_no_reference_is_an_error.
